@@ -1047,7 +1047,9 @@ func nilElementLaws() int {
 	eq("iterator.Zip", run(func() string {
 		return Show(seq.Map(iterator.Zip(iterator.Of(xs...), iterator.Of(10, 20, 30)).ToSeq(), func(t fp.Tuple2[*int, int]) int { return show(t.I1) + t.I2 }))
 	}), Show([]int{11, 19, 33}))
-	eq("iterator.ToList", run(func() string { return Show(seq.Map(iterator.FromList(iterator.ToList(iterator.Of(xs...))).ToSeq(), show)) }), want)
+	eq("iterator.ToList", run(func() string {
+		return Show(seq.Map(iterator.FromList(iterator.ToList(iterator.Of(xs...))).ToSeq(), show))
+	}), want)
 	// nil SLICES as elements
 	ys := [][]int{{1}, nil, {3}}
 	ln := func(s []int) int { return len(s) }
